@@ -79,6 +79,15 @@ def check(ix, rep):
                 unitflow.check_handler(ix, rep, cls, f, '%s:%s' % (cls.name, nc.name))
                 n += 1
     rep.floor('timed handlers checked for unit flow', n, 14)
+    # the normalising helper converts each bound with its own unit (dimension rule shared with C08)
+    from sa.rules import units
+    norms = {}
+    for cls in (pcls, hcls):
+        for f_ in cls.methods.values():
+            for nf in unitflow.normalisers_used(ix, cls, f_):
+                norms[id(nf)] = nf
+    for nf in norms.values():
+        units.check_transformer(ix, rep, None, None, 'dense', func=nf)
     store.check_pastifier_remap(ix, rep)
     # pastify(): horizon of every spec computed before rewriting; specs replaced in order; result has no future operator
     pf = pcls.methods.get('pastify')
